@@ -366,6 +366,10 @@ def run(run):
         except (RuntimeError, NotImplementedError, S.SymbolicBranch) as e:
             run.error('Olson series sub-claim could not be executed symbolically: %s' % e)
     if not run.only:
+        # the numeric oracles on the compiled code of this tree (both hemispheres, rim of the domain,
+        # integer-typed / list arguments): must agree with the symbolic verdict
+        rep.selfcheck(PROP, [{'check': 'geo', 'point': pt} for pt in rep.points(4 if run.tier == 'quick' else 20)] +
+                      [{'check': 'ecef', 'point': {'lon': 30.0, 'rho': 4e6, 'z': -3e6}}, {'check': 'olson', 'point': {}}])
         for ci, (name, sec, spec) in enumerate(CANARIES):
             if run.tier == 'quick' and ci % 2 == 1 and ci != len(CANARIES) - 1 and sec != 'olson':
                 continue
@@ -537,4 +541,28 @@ def replay(spec):
         fails.append('stacked curvature_matrix != single')
     if not np.array_equal(np.array(earth.principal_radii(np.array([lb[0], lat]), np.array([lb[2], alt])))[:, 1], np.array([rn, re, rp])):
         fails.append('stacked principal_radii != single')
+    # the dtype / container of an argument does not matter: integer-typed arrays and plain lists give
+    # the result of the float array, and no argument is modified
+    il = np.array([int(round(lat)), int(round(lon)), int(round(alt))], dtype=np.int64)
+    fl = il.astype(float)
+    ie = np.round(transform.lla_to_ecef(fl)).astype(np.int64)
+    forms = [('lla_to_ecef', transform.lla_to_ecef, (il,), (fl,)), ('ecef_to_lla', transform.ecef_to_lla, (ie,), (ie.astype(float),)),
+             ('perturb_lla', transform.perturb_lla, (il, np.array([30, -40, 5])), (fl, np.array([30.0, -40.0, 5.0]))),
+             ('lla_to_ned', transform.lla_to_ned, (np.array([il + [1, 0, 7]]), il), (np.array([fl + [1, 0, 7]]), fl)),
+             ('compute_lla_difference', transform.compute_lla_difference, (il + np.array([1, 0, 7]), il), (fl + [1, 0, 7], fl)),
+             ('gravitation_ecef', earth.gravitation_ecef, (il,), (fl,)),
+             ('gravity', earth.gravity, (il[0], il[2]), (fl[0], fl[2])), ('curvature_matrix', earth.curvature_matrix, (il[0], il[2]), (fl[0], fl[2])),
+             ('mat_en_from_ll', transform.mat_en_from_ll, (il[0], il[1]), (fl[0], fl[1]))]
+    for nm, f, ai, af in forms:
+        keep = [np.array(a, copy=True) for a in ai]
+        try:
+            ri, rf = np.asarray(f(*ai), dtype=float), np.asarray(f(*af), dtype=float)
+            rl = np.asarray(f(*[a.tolist() if isinstance(a, np.ndarray) else a for a in af]), dtype=float)
+        except Exception as e_:      # noqa: BLE001
+            fails.append('%s raises %s for integer-typed / list arguments' % (nm, type(e_).__name__))
+            continue
+        if ri.shape != rf.shape or not np.allclose(ri, rf, rtol=1e-12, atol=1e-9) or not np.allclose(rl, rf, rtol=1e-12, atol=1e-9):
+            fails.append('%s: integer-typed or list arguments give another result than the float array (max diff %.3g)' % (nm, max(np.abs(ri - rf).max() if ri.shape == rf.shape else np.inf, np.abs(rl - rf).max())))
+        if any(not np.array_equal(a, b) or np.asarray(a).dtype != np.asarray(b).dtype for a, b in zip(ai, keep)):
+            fails.append('%s modifies its argument' % nm)
     return {'violated': bool(fails), 'detail': fails}
